@@ -1,6 +1,8 @@
 package main
 
 import (
+	"os"
+	"path/filepath"
 	"fmt"
 	"math/rand"
 	"regexp"
@@ -113,6 +115,12 @@ jobs:
           echo ${{ «needs».«deploy».result }}
       - run: |
           echo ${{ «needs».«build».result }}
+  «selfish»:
+    needs: [«selfish»]
+    runs-on: ubuntu-latest
+    steps:
+      - run: |
+          echo ${{ «needs».«selfish».result }}
 `,
 	// workflow_dispatch inputs, action inputs, cyclic needs, duplicate ids
 	`on:
@@ -309,6 +317,12 @@ func runC08(c *ctx, r *Report) error {
 			r.sample(map[string]string{"recased_excerpt": s[:400]})
 		}
 	}
+	// names supplied by a PROJECT: inputs / secrets / outputs of a local reusable workflow and of a local action (declared in
+	// mixed case in the callee's file), configuration variables; the caller's spellings are re-cased at random. Typed inputs
+	// are given values of the wrong type so that the typed check has something to say whatever the spelling.
+	if err := c08Project(c, r, rng, nVariants); err != nil {
+		return err
+	}
 	// tie of the sema model that check_case_insensitive / json_keys_folded are about (no judge: the property relates
 	// two runs of the checker, a single differing output is not by itself a failing input)
 	nTie := 4000
@@ -357,3 +371,106 @@ func runC08(c *ctx, r *Report) error {
 }
 
 type relErr struct{}
+
+const c08ProjectTemplate = `on: push
+jobs:
+  «a»:
+    uses: ./.github/workflows/ok1.yml
+    with:
+      «name»: x
+      «num»: notanumber
+      «flag»: ${{ 'str' }}
+      «b_ool»: 12
+      «anything»: ${{ «vars».«my_var» }}
+      «nosuch»: 1
+    secrets:
+      «tok»: ${{ «secrets».x }}
+      «opt»: y
+      «unknown»: y
+  «a2»:
+    uses: ./.github/workflows/ok1.yml
+    with:
+      «num»: 1
+  «b»:
+    needs: [«a»]
+    runs-on: ubuntu-latest
+    steps:
+      - id: «st»
+        uses: ./act/ok
+        with:
+          «name»: n
+          «opt»: o
+          «bogus»: 1
+      - uses: ./act/ok
+        with:
+          «second_req»: x
+      - run: echo ${{ «needs».«a».«outputs».«out1» }} ${{ «needs».«a».«outputs».«out2» }} ${{ «needs».«a».«outputs».nooutput }}
+      - run: echo ${{ «steps».«st».«outputs».«out1» }} ${{ «steps».«st».«outputs».«out2» }} ${{ «steps».«st».«outputs».nores }}
+      - run: echo ${{ «vars».«my_var» }} ${{ «vars».undefined_var }}
+`
+
+func c08Project(c *ctx, r *Report, rng *rand.Rand, nVariants int) error {
+	env, err := newPjEnv()
+	if err != nil {
+		return err
+	}
+	defer env.close()
+	os.WriteFile(filepath.Join(env.root, ".github", "actionlint.yaml"), []byte("config-variables:\n  - MY_VAR\n  - other\n"), 0o644)
+	p := filepath.Join(env.wf, "caller.yml")
+	canon := func(src string) (string, int, error) {
+		os.WriteFile(p, []byte(src), 0o644)
+		l, err := actionlint.NewLinter(nopWriter{}, &actionlint.LinterOptions{Shellcheck: "", Pyflakes: ""})
+		if err != nil {
+			return "", 0, err
+		}
+		errs, err := l.LintFile(p, nil)
+		if err != nil {
+			return "", 0, err
+		}
+		var sb strings.Builder
+		for _, e := range errs {
+			fmt.Fprintf(&sb, "%d:%d [%s] %s\n", e.Line, e.Column, e.Kind, strings.ToLower(e.Message))
+		}
+		return sb.String(), len(errs), nil
+	}
+	base, nOcc := renderCase(c08ProjectTemplate, rng, 0)
+	want, n0, err := canon(base)
+	if err != nil {
+		return err
+	}
+	r.Notes = append(r.Notes, fmt.Sprintf("project template: %d marked name occurrences, %d diagnostics as written", nOcc, n0))
+	if n0 < 10 {
+		r.finding("project-template-quiet", fmt.Sprintf("the project template yields only %d diagnostics as written: the scratch project is not picked up", n0), Case{Op: "lint-recased-project", Input: map[string]string{"as_written": base}, Impl: want})
+	}
+	for v := 0; v < nVariants; v++ {
+		src, _ := renderCase(c08ProjectTemplate, rng, 1)
+		got, _, err := canon(src)
+		r.Evaluations++
+		if err != nil {
+			r.Crashes = append(r.Crashes, Case{Op: "lint-recased-project", Input: map[string]string{"yaml": src}, Note: err.Error()})
+			continue
+		}
+		r.nontrivial(src)
+		r.hist("project-recased")
+		if got != want {
+			gl, wl := strings.Split(got, "\n"), strings.Split(want, "\n")
+			diff := ""
+			for i := 0; i < len(gl) || i < len(wl); i++ {
+				a, b := "", ""
+				if i < len(gl) {
+					a = gl[i]
+				}
+				if i < len(wl) {
+					b = wl[i]
+				}
+				if a != b {
+					diff = fmt.Sprintf("re-cased: %q / as written: %q", a, b)
+					break
+				}
+			}
+			r.finding("recase-changes-diagnostics", "changing only the letter case of names that a local reusable workflow / local action / the configuration declares changes the diagnostics: "+diff,
+				Case{Op: "lint-recased-project", Input: map[string]string{"as_written": base, "recased": src}, Impl: got, Model: want})
+		}
+	}
+	return nil
+}
